@@ -121,6 +121,12 @@ package engine
 //@ ghost var txn int
 //@ ghost var walFlushes int
 //@ ghost var rowsApplied int
+// Log records carry a ghost sequence number in the order the storage layer produced them.
+//@ ghost var entryCount int
+//@ ghost var seq(e *storage.WALEntry) int
+//@ spec pred batchOrdered(b storage.WALBatch) { forall i, j int :: 0 <= i && i < j && j < len(b) ==> seq(b[i]) < seq(b[j]) }
+//@ spec pred batchBelow(b storage.WALBatch, n int) { forall i int :: 0 <= i && i < len(b) ==> b[i] != nil && allocated(b[i]) && seq(b[i]) < n }
+//@ spec pred produced(b storage.WALBatch, first int) { forall i int :: 0 <= i && i < len(b) ==> b[i] != nil && fresh(b[i]) && seq(b[i]) == first + i }
 
 //@ iface (rm RelationManager) StartTxn()
 //@   props C13
@@ -148,26 +154,33 @@ package engine
 //@ iface (rm RelationManager) Insert(tableName string, cols []string, vals []interface{}) (storage.WALBatch, error)
 //@   trusted
 //@   requires txn == 1
-//@   modifies storeState, rowsApplied
+//@   modifies storeState, entryCount, seq, rowsApplied
 //@   ensures result0 == nil || fresh(result0)
 //@   ensures err == nil ==> rowsApplied == old(rowsApplied) + 1
 //@   ensures err != nil ==> rowsApplied == old(rowsApplied)
+//@   ensures[seq] entryCount == old(entryCount) + len(result0) && produced(result0, old(entryCount))
+//@   ensures[seq.frame] forall e *storage.WALEntry :: !fresh(e) ==> seq(e) == old(seq(e))
 
 //@ iface (rm RelationManager) Update(tableName string, rowID uint32, cols []string, updateSrc []interface{}) (storage.WALBatch, error)
 //@   trusted
 //@   requires txn == 1
-//@   modifies storeState
+//@   modifies storeState, entryCount, seq
 //@   ensures result0 == nil || fresh(result0)
+//@   ensures[seq] entryCount == old(entryCount) + len(result0) && produced(result0, old(entryCount))
+//@   ensures[seq.frame] forall e *storage.WALEntry :: !fresh(e) ==> seq(e) == old(seq(e))
 
 //@ iface (rm RelationManager) MarkDeleted(tableName string, rowID uint32) (storage.WALBatch, error)
 //@   trusted
 //@   requires txn == 1
-//@   modifies storeState
+//@   modifies storeState, entryCount, seq
 //@   ensures result0 == nil || fresh(result0)
+//@   ensures[seq] entryCount == old(entryCount) + len(result0) && produced(result0, old(entryCount))
+//@   ensures[seq.frame] forall e *storage.WALEntry :: !fresh(e) ==> seq(e) == old(seq(e))
 
 //@ iface (rm RelationManager) FlushWALBatch(batch storage.WALBatch) error
 //@   trusted
 //@   requires txn == 1
+//@   requires[order; C03] batchOrdered(batch)
 //@   modifies storeState, walFlushes
 //@   ensures result == nil ==> walFlushes == old(walFlushes) + 1
 //@   ensures result != nil ==> walFlushes == old(walFlushes)
@@ -345,36 +358,39 @@ package engine
 //@   ensures[unlock; C13 C18] txn == 0
 
 //@ func EvaluateInsert(q sql.InsertStatement, rm RelationManager) (int, error)
-//@   props C01 C02 C13 C14 C18
+//@   props C01 C02 C03 C13 C14 C18
 //@   requires txn == 0 && nonNilPtr(rm) && typeof(q.InsertColumnsAndSource.QueryExpression) == typ(sql.TableValueConstructor)
-//@   modifies txn, storeState, walFlushes, rowsApplied
+//@   modifies txn, storeState, walFlushes, entryCount, seq, rowsApplied
 //@   ensures[unlock; C13 C18] txn == 0
 //@   ensures[L4; C02] err == nil ==> walFlushes == old(walFlushes) + 1
 //@   ensures[err.nolog; C14] err != nil ==> walFlushes == old(walFlushes)
 //@   loop 1 invariant txn == 1 && (batch == nil || fresh(batch)) && count == rangeindex + 1 && rowsApplied == old(rowsApplied) + count
+//@   loop 1 invariant [order; C03] batchOrdered(batch) && batchBelow(batch, entryCount)
 //@   loop 1 decreases len(vals) - rangeindex
 //@   ensures[err.atomic; C14] err != nil ==> rowsApplied == old(rowsApplied)
 
 //@ func EvaluateDelete(q sql.DeleteStatementSearched, rm RelationManager) (int, error)
-//@   props C01 C02 C13 C14 C18
+//@   props C01 C02 C03 C13 C14 C18
 //@   requires txn == 0 && nonNilPtr(rm) && (q.WhereClause == nil || typeof(q.WhereClause) == typ(sql.WhereClause))
-//@   modifies txn, storeState, walFlushes
+//@   modifies txn, storeState, walFlushes, entryCount, seq
 //@   ensures[unlock; C13 C18] txn == 0
 //@   ensures[L4; C02] err == nil ==> walFlushes == old(walFlushes) + 1
 //@   ensures[err.nolog; C14] err != nil ==> walFlushes == old(walFlushes)
 //@   loop 1 invariant txn == 1 && (batch == nil || fresh(batch))
+//@   loop 1 invariant [order; C03] batchOrdered(batch) && batchBelow(batch, entryCount)
 //@   loop 1 decreases len(rows) - rangeindex
 
 //@ func EvaluateUpdate(q sql.UpdateStatementSearched, rm RelationManager) error
-//@   props C01 C02 C13 C14 C18
+//@   props C01 C02 C03 C13 C14 C18
 //@   requires txn == 0 && nonNilPtr(rm) && (q.Where == nil || typeof(q.Where) == typ(sql.WhereClause))
-//@   modifies txn, storeState, walFlushes
+//@   modifies txn, storeState, walFlushes, entryCount, seq
 //@   ensures[unlock; C13 C18] txn == 0
 //@   ensures[L4; C02] err == nil ==> walFlushes == old(walFlushes) + 1
 //@   ensures[err.nolog; C14] err != nil ==> walFlushes == old(walFlushes)
 //@   loop 1 invariant txn == 1
 //@   loop 2 invariant txn == 1 && (cols == nil || fresh(cols)) && (updateSrc == nil || fresh(updateSrc))
 //@   loop 3 invariant txn == 1 && (batch == nil || fresh(batch))
+//@   loop 3 invariant [order; C03] batchOrdered(batch) && batchBelow(batch, entryCount)
 
 //@ func EvaluateCreateTable(q sql.CreateTable, rm RelationManager) error
 //@   props C13 C14 C18
@@ -404,7 +420,7 @@ package engine
 //@ func (s *Session) ExecQuery(q string) error
 //@   props C17 C18 C13 C14
 //@   requires txn == 0 && sessInv(s)
-//@   modifies s.CurDB, s.RelationService, txn, storeState, walFlushes, rowsApplied, openStores, listLen, listAt, listPos, listOf, all(storage.Row.Vals), all(storage.Field.Column), allelems(any), allelems(*storage.Row)
+//@   modifies s.CurDB, s.RelationService, txn, storeState, walFlushes, rowsApplied, entryCount, seq, openStores, listLen, listAt, listPos, listOf, all(storage.Row.Vals), all(storage.Field.Column), allelems(any), allelems(*storage.Row)
 //@   ensures[unlock; C13] txn == 0
 //@   ensures[inv; C17 C18] sessInv(s)
 //@   ensures[errorframe; C17] result != nil && openStores == old(openStores) ==> s.CurDB == old(s.CurDB) && s.RelationService == old(s.RelationService)
